@@ -62,3 +62,123 @@ theorem etaSpec_cands (lv : Lvl) (alen : Nat) : ∀ (l : List Nat) (acc : List I
         rw [this, List.take_zero, List.append_nil]
 
 end DV.EtaStream
+
+namespace DV.EtaStream
+open DV DV.ShakeTotal DV.SamplerTotal DV.ShakeSmall DV.Ranges
+
+def streamOf (f : Lanes → Lanes) (r : Nat) (s : Lanes) (n : Nat) : List Nat := (keccak_squeezeblocks_loop f r n [] s).1
+def afterOf (f : Lanes → Lanes) (r : Nat) (s : Lanes) (n : Nat) : Lanes := (keccak_squeezeblocks_loop f r n [] s).2
+
+theorem loop_acc (f : Lanes → Lanes) (r : Nat) : ∀ (n : Nat) (acc : List Nat) (s : Lanes),
+    keccak_squeezeblocks_loop f r n acc s = (acc ++ streamOf f r s n, afterOf f r s n) := by
+  intro n
+  induction n with
+  | zero => intro acc s; simp [keccak_squeezeblocks_loop, streamOf, afterOf]
+  | succ n ih =>
+    intro acc s
+    unfold streamOf afterOf
+    unfold keccak_squeezeblocks_loop
+    simp only [List.nil_append]
+    rw [ih (acc ++ _), ih (List.map _ _)]
+    simp only [List.append_assoc]
+
+theorem stream_one_add (f : Lanes → Lanes) (r : Nat) (s : Lanes) (k : Nat) :
+    streamOf f r s (k + 1) = streamOf f r s 1 ++ streamOf f r (afterOf f r s 1) k := by
+  have e1 : keccak_squeezeblocks_loop f r (k + 1) [] s =
+      keccak_squeezeblocks_loop f r k ([] ++ (List.range (8 * (r / 8))).map (fun j => getByte (f s) j)) (f s) := by
+    rw [keccak_squeezeblocks_loop]
+  have e2 : keccak_squeezeblocks_loop f r 1 [] s = ([] ++ (List.range (8 * (r / 8))).map (fun j => getByte (f s) j), f s) := by
+    rw [keccak_squeezeblocks_loop, keccak_squeezeblocks_loop]
+  unfold streamOf afterOf
+  rw [e1, e2, loop_acc]
+  rfl
+
+def stream256 (s : Lanes) (n : Nat) : List Nat := streamOf keccakf R256 s n
+def after256 (s : Lanes) (n : Nat) : Lanes := afterOf keccakf R256 s n
+
+theorem stream256_len (s : Lanes) (n : Nat) : (stream256 s n).length = n * R256 := by
+  unfold stream256 streamOf
+  rw [squeezeblocks_loop_eq keccakf R256 (by decide) (by decide) n [] s]
+  simp only [List.nil_append]
+  exact squeezeSpec_length keccakf R256 (by decide) (n * R256) s R256 (Nat.le_refl _)
+
+theorem sq_blocks256 (cap n : Nat) (st : KeccakState) (hc : n * R256 ≤ cap) :
+    shake256_squeezeblocks cap n st = .ok (stream256 st.s n, { st with s := after256 st.s n }) := by
+  have hr : R256 = 136 := by decide
+  have hcond : n = 0 ∨ (n - 1) * R256 + 8 * (R256 / 8) ≤ cap := by
+    by_cases h0 : n = 0
+    · exact Or.inl h0
+    · right
+      have e8 : 8 * (R256 / 8) = R256 := by rw [hr]
+      rw [e8]
+      have : (n - 1) * R256 + R256 = n * R256 := by
+        obtain ⟨m, rfl⟩ : ∃ m, n = m + 1 := ⟨n - 1, by omega⟩
+        rw [Nat.add_sub_cancel, Nat.succ_mul]
+      omega
+  unfold shake256_squeezeblocks keccak_squeezeblocks
+  rw [if_pos hcond]; rfl
+
+theorem stream256_zero (s : Lanes) : stream256 s 0 = [] := by
+  unfold stream256 streamOf; rw [keccak_squeezeblocks_loop]
+
+theorem block_filter (lv : Lvl) (q : Nat) (blk : List Nat) (hl : blk.length = R256) :
+    rej_eta lv q q blk R256 = .ok ((etaCands lv blk).take q) := by
+  rw [rej_eta_eq lv q blk R256 (by rw [hl]; exact Nat.le_refl _), etaSpec_cands lv q _ [] (Nat.zero_le _)]
+  have : blk.take R256 = blk := List.take_of_length_le (by rw [hl]; exact Nat.le_refl _)
+  rw [this, List.nil_append, List.length_nil, Nat.sub_zero]
+
+theorem uniform_eta_loop_stream (lv : Lvl) : ∀ (fuel : Nat) (st : KeccakState) (acc r : List Int),
+    acc.length ≤ N → uniform_eta_loop lv fuel st acc = .ok r →
+    ∃ t, r = acc ++ (etaCands lv (stream256 st.s t)).take (N - acc.length) := by
+  have hNB : UNIFORM_ETA_NBLOCKS = 1 := by decide
+  have hR : R256 = 136 := by decide
+  intro fuel
+  induction fuel with
+  | zero => intro st acc r _ h; simp [uniform_eta_loop] at h
+  | succ n ih =>
+    intro st acc r hacc h
+    unfold uniform_eta_loop at h
+    by_cases hlt : acc.length < N
+    · rw [if_pos hlt] at h
+      rw [sq_blocks256 (UNIFORM_ETA_NBLOCKS * R256) 1 st (by rw [hNB]; omega), ok_bind] at h
+      simp only at h
+      have hs1 : (stream256 st.s 1).length = R256 := by rw [stream256_len]; omega
+      rw [block_filter lv _ _ hs1, ok_bind] at h
+      obtain ⟨t, ht⟩ := ih { st with s := after256 st.s 1 } _ r (by rw [List.length_append, List.length_take]; omega) h
+      refine ⟨t + 1, ?_⟩
+      have hsplit : stream256 st.s (t + 1) = stream256 st.s 1 ++ stream256 (after256 st.s 1) t := stream_one_add keccakf R256 st.s t
+      have e : N - (acc ++ List.take (N - acc.length) (etaCands lv (stream256 st.s 1))).length
+          = N - acc.length - (etaCands lv (stream256 st.s 1)).length := by
+        rw [List.length_append, List.length_take]; omega
+      rw [ht, hsplit, etaCands_append, List.append_assoc, e, List.take_append]
+    · rw [if_neg hlt] at h
+      injection h with h; subst h
+      refine ⟨0, ?_⟩
+      rw [stream256_zero]
+      simp [etaCands]
+
+/-- **RejBoundedPoly** (FIPS 204 Alg. 31 / the Dilithium secret sampler): `poly::uniform_eta(ρ′, nonce)` is the first 256
+    accepted half-bytes (low nibble first, CoeffFromHalfByte) of the SHAKE-256 stream of ρ′ ‖ nonce; 1 + t blocks are
+    read, t the number of refills the loop needed. -/
+theorem poly_uniform_eta_is_stream_filter (lv : Lvl) (fuel : Nat) (seed : List Nat) (nonce : Nat) (r : List Int)
+    (h : poly_uniform_eta lv fuel seed nonce = .ok r) :
+    ∃ st t, shake256_stream_init seed nonce = .ok st ∧ r = (etaCands lv (stream256 st.s (1 + t))).take 256 ∧ r.length = 256 := by
+  have hNB : UNIFORM_ETA_NBLOCKS = 1 := by decide
+  have hN : N = 256 := by decide
+  have hlen := (poly_uniform_eta_small lv fuel seed nonce r h).1
+  unfold poly_uniform_eta at h
+  obtain ⟨st, hst, h⟩ := bind_eq_ok.mp h
+  rw [hNB, sq_blocks256 (1 * R256) 1 st (Nat.le_refl _), ok_bind] at h
+  simp only at h
+  have hs1 : (stream256 st.s 1).length = R256 := by rw [stream256_len]; omega
+  have e1 : 1 * R256 = R256 := Nat.one_mul _
+  rw [e1, block_filter lv _ _ hs1, ok_bind] at h
+  obtain ⟨t, ht⟩ := uniform_eta_loop_stream lv fuel { st with s := after256 st.s 1 } _ r (by rw [List.length_take]; omega) h
+  refine ⟨st, t, hst, ?_, hlen⟩
+  have hsplit : stream256 st.s (1 + t) = stream256 st.s 1 ++ stream256 (after256 st.s 1) t := by
+    rw [Nat.add_comm]; exact stream_one_add keccakf R256 st.s t
+  have e : N - (List.take N (etaCands lv (stream256 st.s 1))).length = N - (etaCands lv (stream256 st.s 1)).length := by
+    rw [List.length_take]; omega
+  rw [ht, hsplit, etaCands_append, e, ← List.take_append, hN]
+
+end DV.EtaStream
